@@ -109,21 +109,31 @@ def analyse_unit(args):
     return recs, stats
 
 
+DEV_FACTS = None  # development only: reuse/keep an export directory (never used by registered commands)
+
+
 def run_rules(repo, rule_names, tier, scratch):
     """Export and analyse; returns (records, unit stats)."""
     root = repo.rstrip('/') + '/'
+    if DEV_FACTS and os.path.isdir(DEV_FACTS) and os.listdir(DEV_FACTS):
+        paths = sorted(os.path.join(DEV_FACTS, x) for x in os.listdir(DEV_FACTS) if x.endswith('.json'))
+        return analyse_paths(paths, rule_names)
     bdir, db = make_compdb(repo.rstrip('/'), scratch)
     units = select_units(db, repo, tier)
     if len(units) < 40:
         raise Broken('compilation database lists only %d units' % len(units))
-    outdir = os.path.join(scratch, 'facts')
-    os.makedirs(outdir)
+    outdir = DEV_FACTS or os.path.join(scratch, 'facts')
+    os.makedirs(outdir, exist_ok=True)
     paths = []
     with cf.ThreadPoolExecutor(NPROC) as ex:
         for unit, out, ok, err in ex.map(export_unit, [(u, bdir, outdir, root) for u in units]):
             if not ok:
                 raise Broken('vlint failed on %s:\n%s' % (unit, err))
             paths.append(out)
+    return analyse_paths(paths, rule_names)
+
+
+def analyse_paths(paths, rule_names):
     records, stats = [], []
     with cf.ProcessPoolExecutor(NPROC) as ex:
         for recs, st in ex.map(analyse_unit, [(p, rule_names) for p in paths]):
@@ -312,11 +322,14 @@ def main():
     ap.add_argument('--root', default='/repo')
     ap.add_argument('--replay')
     ap.add_argument('--dump', action='store_true', help='print every record')
+    ap.add_argument('--facts', help='development only: keep/reuse the export in this directory')
     a = ap.parse_args()
     tier = a.tier or os.environ.get('VERIF_TIER') or 'quick'
     if tier not in ('quick', 'thorough'):
         tier = 'quick'
     t0 = time.time()
+    global DEV_FACTS
+    DEV_FACTS = a.facts
     if not os.path.exists(VLINT):
         log('ANALYSIS-BROKEN tool/vlint is not built (run: make -C tool)')
         return 2
